@@ -281,6 +281,7 @@ type BlockIn struct {
 	Proposer int           // index into the current validator set (mod len)
 	Absent   []int         // indices (mod len) of validators that did NOT sign the previous block
 	Evidence []abci.Misbehavior
+	NoVotes  bool // the block carries no commit of the previous block (as the first block of a chain does)
 }
 
 // BeginBlock starts the next block.
@@ -306,6 +307,9 @@ func (n *Node) BeginBlock(in BlockIn) abci.ResponseBeginBlock {
 		for _, a := range in.Absent {
 			votes[((a%len(votes))+len(votes))%len(votes)].SignedLastBlock = false
 		}
+	}
+	if in.NoVotes {
+		votes = nil
 	}
 	n.Header = h
 	n.InBlock = true
